@@ -181,4 +181,31 @@ PROPS = {
                      "executions decide only the interleavings that were observed (overlap counts are in the evidence)"],
         technique="runtime monitoring: ThreadSanitizer + read-only (mprotect) tables + concurrent-vs-sequential differential",
     ),
+    "C15": dict(
+        runs=std(),
+        rule=("case = one random program of 300 catalogue calls over a working set of 48 (environment, function, argument "
+              "seed) triples drawn from 12 dimensions, both dispatch configurations and every entry point, one third of "
+              "them on the functions with hidden caches; distinct by descriptor hash (program number); non-trivial when "
+              "the program contains at least one equal-argument repeat separated by other calls"),
+        require={"all": ["calls", "repeated_argument_pairs_checked", "simple_vs_table_twin_checks",
+                         "cache_parameter_transitions", "function_parameter_states"]},
+        assumptions=["output hashes (64-bit) stand for the output bytes", "arguments derive from the seed only; the "
+                     "pre-fill pattern of outputs/scratch and the byte offset (0..56) of every buffer change between "
+                     "repeats", ASAN_NOTE],
+        technique="runtime monitoring: online call-history checker over random programs + fresh-table differential, under ASan+UBSan",
+    ),
+    "C18": dict(
+        runs=plan([dict(cfg="asan", parts=16), dict(cfg="plain", tag="ro", defs="-DVP_ROALLOC", parts=16)],
+                  [dict(cfg="asan", parts=16), dict(cfg="plain", tag="ro", defs="-DVP_ROALLOC", parts=16)]),
+        rule=("case = one batch: a fresh environment (modules + every table kind) for (N, dispatch) and every catalogue "
+              "entry point called with several argument seeds, each call with byte snapshots of all its source buffers "
+              "(padding included) and a table hash after each entry point; distinct by descriptor hash; non-trivial when "
+              "at least one call with a non-empty source ran"),
+        require={"all": ["calls_snapshotted", "source_bytes_compared", "table_bytes_compared", "ro_protected_bytes"]},
+        assumptions=["sources deliberately overwritten by contract are declared INOUT in the catalogue (vec_znx_idft_tmp_a, "
+                     "in-place transforms, accumulating products) and are not snapshotted",
+                     "table hashes cover every allocation whose layout is known; in the 'ro' build all allocations made "
+                     "during creation are covered and write-protected", ASAN_NOTE],
+        technique="runtime monitoring: source snapshots + table hashing under ASan, and write-protected (mprotect) tables",
+    ),
 }
